@@ -57,6 +57,14 @@ func c07Run(c *core.Ctx) *core.Result {
 		eo = editOpt{Owners: []uint32{1234}, Types: "fdlp", Xattrs: true}
 	}
 	src := tree.Gen(R, o)
+	fanout := !unpriv && R.P(1, 20)
+	if fanout {
+		// scale: several hundred files to request (more than the writer and
+		// the queues between the receive loop and the writer hold together),
+		// with the whole listing announced before the first answer
+		src = fanoutTree(R, R.Range(350, 900))
+		r.Count("fanout_sessions", 1)
+	}
 	if unpriv {
 		for i := range src.Entries {
 			if e := &src.Entries[i]; e.Type == tree.Dir {
@@ -116,6 +124,9 @@ func c07Run(c *core.Ctx) *core.Result {
 	}
 	rs := newRefSender(src, R.Fork())
 	rs.Chunk = core.Pick(R, []string{"1", "7", "4k", "32k-1", "32k", "32k+1", "1m", "mixed", "mixed"})
+	if fanout && (rs.Chunk == "1" || rs.Chunk == "7") {
+		rs.Chunk = "mixed" // (byte-sized chunks of hundreds of files are not affordable)
+	}
 	if rs.Chunk == "1" || rs.Chunk == "7" {
 		// keep 1-byte chunkings affordable
 		for i := range src.Entries {
@@ -136,7 +147,7 @@ func c07Run(c *core.Ctx) *core.Result {
 		rs.Chunk = core.Pick(R, []string{"1", "7"})
 	}
 	rs.Inter = core.Pick(R, []string{"sequential", "roundrobin", "random", "reverse"})
-	rs.Race = R.P(1, 2)
+	rs.Race = R.P(1, 2) && !fanout
 	rs.Dest = dest
 	rs.CloseEarly = R.P(1, 12)
 	capn := core.Pick(R, []int{0, 1, 8, 64})
